@@ -16,6 +16,11 @@ def run(tier, replay=None):
                                           timeout=2400, workers=8)
     for m in mism:
         run.mismatch({"kind": "build", "what": m["mismatch"].get("what")}, m)
+    dups, mism, _, _ = C.emit_and_replay(run, "MC_ConfigBuild", "MC_ConfigBuild_dups.cfg", "c13_dups", ["cfgbuild"],
+                                         timeout=900, workers=8)
+    for m in mism:
+        run.mismatch({"kind": "build", "what": m["mismatch"].get("what")}, m)
+    cases = cases + dups
     run.evaluations = len(names) + len(cases)
     run.nontrivial = sum(1 for c in cases if not c["strict_ok"]) + sum(1 for n in names if not n["valid"])
     if not run.mismatches and (run.nontrivial < 100 or not any(c["strict_ok"] for c in cases)):
